@@ -157,14 +157,25 @@ def run_both(lines, go_env=None, go_bin=None, jobs=None):
     return go, mo
 
 
+_ERR_RET = re.compile(r"(^| \| )(recv|other) ((?:foreign)?!)")
+
+
+def canon(reply):
+    """canonicalise a reply line before comparison: WHICH object carries a returned error is documented
+    pointer behaviour of erroneous operands ("its error is wrapped and the same element is returned"), two
+    registers may hold that same erroneous object, and the property speaks about success only — so
+    `recv !Kind` / `other !Kind` are compared as `ret !Kind`."""
+    return _ERR_RET.sub(lambda m: m.group(1) + "ret " + m.group(3), reply)
+
+
 def run_model(lines):
-    return _run_chunk(MODEL_BIN, lines) if lines else []
+    return [canon(x) for x in _run_chunk(MODEL_BIN, lines)] if lines else []
 
 
 def run_go(lines, go_env=None):
     env = dict(os.environ)
     env.update(go_env or {})
-    return _run_chunk(HARNESS_BIN, lines, env) if lines else []
+    return [canon(x) for x in _run_chunk(HARNESS_BIN, lines, env)] if lines else []
 
 
 # --------------------------------------------------------------------------------------------
